@@ -593,7 +593,7 @@ Qed.
 
 Lemma d_step_store_other cfg hint st e : (forall p hs, e <> EHeaders p hs) -> d_store (fst (d_step cfg hint st e)) = d_store st.
 Proof.
-  intros Hne. destruct e as [p cand lb|p hs|p l|p|aged]; cbn [d_step].
+  intros Hne. destruct e as [p cand lb|p hs|p l|p|aged|p cand lb]; cbn [d_step].
   - unfold on_new_peer. destruct (_ && _); [|reflexivity]. rewrite start_sync_store. reflexivity.
   - exfalso. apply (Hne p hs). reflexivity.
   - apply on_inv_store.
@@ -601,11 +601,12 @@ Proof.
     destruct (opt_eqb (d_sync st) p); [|reflexivity]. rewrite update_sync_peer_store. reflexivity.
   - unfold on_tick. destruct (d_sync st) as [sp|]; [|reflexivity]. destruct (negb aged); [reflexivity|].
     destruct (_ =? _); [reflexivity|]. destruct (aget sp (d_states st)); [|reflexivity]. apply update_sync_peer_store.
+  - unfold on_new_peer_gone. destruct (_ && _); [|reflexivity]. rewrite start_sync_store. reflexivity.
 Qed.
 
 Theorem d_step_no_forb cfg hint st e : no_forb (c_forb cfg) (d_store st) -> no_forb (c_forb cfg) (d_store (fst (d_step cfg hint st e))).
 Proof.
-  intros Hs. destruct e as [p cand lb|p hs|p l|p|aged]; try (rewrite d_step_store_other; [exact Hs| intros; discriminate]).
+  intros Hs. destruct e as [p cand lb|p hs|p l|p|aged|p cand lb]; try (rewrite d_step_store_other; [exact Hs| intros; discriminate]).
   apply on_headers_no_forb. exact Hs.
 Qed.
 
@@ -693,3 +694,22 @@ Proof.
   destruct (rejected_peer_dropped_default' cfg st p c o pre h post s1 rc1 fin1 Hnf Hst Hh Ho Hc Hpre Hf) as (st' & E & Es & _).
   exists st'. auto.
 Qed.
+
+(* ------------------------------------------------------------------------------------------- *)
+(* 11. refuted for the default engine as it is: only the checkpoint the cursor points at is compared.  Peer 7 brings
+       20 <- 21 <- 22 (checkpoint: height 3 = 22); afterwards peer 8 delivers 2 <- 3 <- 4 <- 5 <- 6: header 4 at height 3
+       contradicts the passed checkpoint, the branch overtakes the tip, is adopted, and its sender is asked for more *)
+(* ------------------------------------------------------------------------------------------- *)
+Definition exA : list src := [ex_sub 20 1 545259519; ex_sub 21 20 545259519; ex_sub 22 21 545259519].
+Definition exB : list src := map (fun i => ex_sub i (i - 1) 545259519) [2; 3; 4; 5; 6]%N.
+Theorem passed_checkpoint_fork_adopted_refuted :
+  let cfg := {| c_cps := [(3, 22%N)]; c_disable := false; c_forb := []; c_now := 0 |} in
+  let st0 := fst (on_new_peer cfg 0 (d_init cfg (init 1 (ex_pl 486604799))) 7 true 3) in
+  let st1 := fst (on_headers cfg st0 7 exA) in                                   (* the checkpoint is reached and passed *)
+  let st2 := fst (on_new_peer cfg 0 st1 8 true 5) in
+  let '(st3, es) := on_headers cfg st2 8 exB in
+  d_next st1 = None /\ option_map id (tipB (d_store st1)) = Some 22%N /\
+  option_map id (tipB (d_store st3)) = Some 6%N /\                               (* a chain whose header at height 3 is 4, not 22 *)
+  (exists r, by_hash (d_store st3) 4%N = Some r /\ height r = 3 /\ st r = Longest) /\
+  es = [GetHeaders 8 [6; 5; 4; 3; 2; 1]%N 0%N].                                  (* sender kept and asked for more *)
+Proof. vm_compute. repeat split; try reflexivity. eexists. repeat split; reflexivity. Qed.
